@@ -21,6 +21,7 @@ pub struct Features {
     pub extra_header: usize,
     pub wild_ligs: bool,
     pub skips: usize,
+    pub big_skips: usize,
 }
 
 fn real(rng: &mut Rng, lo: i64, hi: i64) -> String {
@@ -80,9 +81,18 @@ pub fn gen_font(rng: &mut Rng, size_class: u64) -> (String, Features) {
             out.push_str(&format!("(FACE O {:o})\n", rng.below(256)));
         }
     }
-    let n_extra = if rng.chance(1, 3) { rng.range_usize(1, 6) } else { 0 };
+    // extra header words HEADER D 18 ..; one time in twelve up to the field maximum (index 255,
+    // i.e. a header of exactly 256 words) - all of them emitted then
+    let full_header = rng.chance(1, 12);
+    let n_extra = if full_header {
+        *rng.pick(&[200usize, 236, 237, 238])
+    } else if rng.chance(1, 3) {
+        rng.range_usize(1, 6)
+    } else {
+        0
+    };
     for i in 0..n_extra {
-        if rng.chance(3, 4) {
+        if full_header || rng.chance(3, 4) {
             out.push_str(&format!("(HEADER D {} O {:o})\n", 18 + i, rng.next_u32()));
             f.extra_header = i + 1;
         }
@@ -297,7 +307,15 @@ pub fn gen_font(rng: &mut Rng, size_class: u64) -> (String, Features) {
                 pending_skip_guard = pending_skip_guard.saturating_sub(1);
                 // an occasional SKIP over the following 1..3 instructions (which we then emit)
                 if j + 1 < k && rng.chance(1, 25) && pending_skip_guard == 0 {
-                    let s = rng.range_usize(1, 3);
+                    // mostly 1..3; sometimes up to the field maximum of 127
+                    let s = if rng.chance(1, 5) {
+                        *rng.pick(&[100usize, 126, 127, 127])
+                    } else {
+                        rng.range_usize(1, 3)
+                    };
+                    if s >= 100 {
+                        f.big_skips += 1;
+                    }
                     out.push_str(&format!("   (SKIP D {s})\n"));
                     pending_skip_guard = s + 1;
                     f.skips += 1;
